@@ -343,13 +343,13 @@ func init() {
 		}
 		defer env.close()
 		rng := newRand(12)
-		for i := 0; i < tierN(150, 4000); i++ {
+		for i := 0; i < tierN(150, 4000) && !expired(); i++ {
 			c12History(r, env, rng, i)
 		}
-		for i := 0; i < tierN(120, 3000); i++ {
+		for i := 0; i < tierN(120, 3000) && !expired(); i++ {
 			c12Race(r, env, rng, i)
 		}
-		for i := 0; i < tierN(4, 40); i++ {
+		for i := 0; i < tierN(4, 40) && !expired(); i++ {
 			c12Stale(r, rng, i)
 		}
 		r.Validated = r.Evaluations
